@@ -6,7 +6,9 @@ package main
 //   crash - a CHILD process (this binary, hidden generator C08storechild) performs one operation with
 //           VERIF_CRASH=<point>, is killed there (exit 99); the parent reopens the directory, dumps it,
 //           then starts a real routing.Core on it and runs the restart entry points;
-//   conc  - N goroutines push N different fragments of one bundle at once.
+//   conc  - N goroutines push N different fragments of one bundle at once;
+//   hand  - records of hand-built ("foreign") fragments: lone covering / partial fragments, drawn cut points;
+//           operations that name a record are addressed by any of the IDs denoting it (scrubbed or fragment ID).
 // Observables are canonicalised: ids are indices of the scrubbed bundle-ID strings, parts sorted by
 // (offset, total), loaded bundles named by their index in the case's universe (or raw hex), expiry in
 // unix ms as derived from fixed creation times (never "now").
@@ -46,6 +48,50 @@ type c08U struct {
 	keys []string       // scrubbed id strings; index = k
 	kmap map[string]int // scrubbed id string -> k
 	raw  map[string]int // hex(raw) -> universe index
+	// hand-built fragments of base bundle 0 (not produced by dtn7's own Fragment()): universe indices
+	cover   []int   // a lone fragment [0, total) that covers the whole payload (total may be 0)
+	partial []int   // lone partial ones: a head [0, x), a tail [y, total), a middle piece
+	cuts    [][]int // fragmentations at drawn cut points (uneven, 1-byte pieces, optionally overlapping)
+}
+
+// ofKey: the universe indices of all bundles whose IDs denote record k - the whole bundle (scrubbed
+// ID) and every fragment (ID with offset and total length)
+func (u *c08U) ofKey(k int) []int {
+	var l []int
+	for i, b := range u.bs {
+		if b.K == k {
+			l = append(l, i)
+		}
+	}
+	return l
+}
+
+// c08HandFrag builds the fragment [off, end) of a bundle the way another implementation might: every
+// block in the first fragment, replicated blocks only in the others, no regard to any MTU.
+func c08HandFrag(whole bpv7.Bundle, off, end uint64) bpv7.Bundle {
+	pl, err := whole.PayloadBlock()
+	if err != nil {
+		panic(err)
+	}
+	data := pl.Value.(*bpv7.PayloadBlock).Data()
+	pb := whole.PrimaryBlock
+	pb.BundleControlFlags |= bpv7.IsFragment
+	pb.FragmentOffset = off
+	pb.TotalDataLength = uint64(len(data))
+	var cbs []bpv7.CanonicalBlock
+	for _, cb := range whole.CanonicalBlocks {
+		if cb.TypeCode() == bpv7.ExtBlockTypePayloadBlock {
+			cbs = append(cbs, bpv7.CanonicalBlock{BlockNumber: cb.BlockNumber, BlockControlFlags: cb.BlockControlFlags, CRCType: cb.CRCType,
+				Value: bpv7.NewPayloadBlock(append([]byte{}, data[off:end]...))})
+		} else if off == 0 || cb.BlockControlFlags.Has(bpv7.ReplicateBlock) {
+			cbs = append(cbs, cb)
+		}
+	}
+	b := bpv7.MustNewBundle(pb, cbs)
+	if err := b.CheckValid(); err != nil {
+		panic(err)
+	}
+	return b
 }
 
 const c08Epoch2k = 946684800000
@@ -118,6 +164,12 @@ func abs(x int) int {
 // newUniverse: nBase base bundles; for each the whole bundle, a same-ID variant with a shorter payload
 // (different bytes under the same file name), and the fragments of one or two fragmentations.
 func c08Universe(r *Rng, nBase int, twoFrag bool, tag int, allowPast bool) *c08U {
+	return c08UniverseH(r, nBase, twoFrag, tag, allowPast, false)
+}
+
+// hand: base bundle 0 also gets hand-built fragments (see c08U.cover / partial / cuts), and may have a
+// tiny or empty payload
+func c08UniverseH(r *Rng, nBase int, twoFrag bool, tag int, allowPast bool, hand bool) *c08U {
 	u := &c08U{kmap: map[string]int{}, raw: map[string]int{}}
 	for j := 0; j < nBase; j++ {
 		// a bundle whose own lifetime is exceeded cannot be built or parsed (CheckValid), but it can sit
@@ -129,22 +181,77 @@ func c08Universe(r *Rng, nBase int, twoFrag bool, tag int, allowPast bool) *c08U
 		life := c08Century + uint64(r.Intn(1000))
 		crc := []bpv7.CRCType{bpv7.CRCNo, bpv7.CRC16, bpv7.CRC32}[r.Intn(3)]
 		plen := 40 + r.Intn(160)
+		if hand && j == 0 {
+			switch r.Intn(8) {
+			case 0:
+				plen = 0
+			case 1:
+				plen = 1 + r.Intn(3)
+			}
+		}
 		pay := r.Bytes(plen)
 		o := BOpt{Src: fmt.Sprintf("dtn://s%d-%d/a", tag, j), Dst: "dtn://dst/x", TS: uint64(bpv7.DtnTimeFromTime(c08Base.Add(time.Duration(j) * time.Hour))),
 			Life: life, Payload: pay, CRC: crc}
 		whole := MkBundle(o)
-		o2 := o
-		o2.Payload = r.Bytes(1 + r.Intn(plen-1))
-		all := []bpv7.Bundle{whole, MkBundle(o2)}
+		all := []bpv7.Bundle{whole}
+		if plen >= 2 {
+			o2 := o
+			o2.Payload = r.Bytes(1 + r.Intn(plen-1))
+			all = append(all, MkBundle(o2))
+		}
 		all = append(all, c08Fragments(whole, 2+r.Intn(4))...)
 		if twoFrag {
 			all = append(all, c08Fragments(whole, 2+r.Intn(6))...)
 		}
-		for _, b := range all {
+		put := func(b bpv7.Bundle) int {
 			if pastLife != 0 {
 				b.PrimaryBlock.Lifetime = pastLife
 			}
-			u.add(b)
+			return u.add(b)
+		}
+		for _, b := range all {
+			put(b)
+		}
+		if hand && j == 0 {
+			n := uint64(plen)
+			u.cover = append(u.cover, put(c08HandFrag(whole, 0, n)))
+			if n >= 2 {
+				x := 1 + uint64(r.Intn(plen-1)) // 1 .. n-1
+				u.partial = append(u.partial, put(c08HandFrag(whole, x, n)))
+				if n >= 3 {
+					y := 1 + uint64(r.Intn(plen-2))
+					u.partial = append(u.partial, put(c08HandFrag(whole, y, y+1+uint64(r.Intn(int(n-y-1))))))
+				}
+				// the head last: its ID (offset 0, same total) is the ID of the covering fragment, so only
+				// one of the two can be in a record; scenarios choose
+				u.partial = append(u.partial, put(c08HandFrag(whole, 0, x)))
+				for c := 0; c < 2; c++ {
+					// cut points: a drawn subset of 1..n-1, pieces between neighbours; the second
+					// fragmentation lets every piece reach up to 3 bytes into its successor
+					var pts []uint64
+					for p := uint64(1); p < n; p++ {
+						if r.Intn(plen) < 1+r.Intn(5) || p == 1 && r.Intn(4) == 0 {
+							pts = append(pts, p)
+						}
+					}
+					if len(pts) == 0 {
+						pts = []uint64{1 + uint64(r.Intn(plen-1))}
+					}
+					pts = append(append([]uint64{0}, pts...), n)
+					var set []int
+					for i := 0; i+1 < len(pts); i++ {
+						end := pts[i+1]
+						if c == 1 && end < n {
+							end += uint64(r.Intn(4))
+							if end > n {
+								end = n
+							}
+						}
+						set = append(set, put(c08HandFrag(whole, pts[i], end)))
+					}
+					u.cuts = append(u.cuts, set)
+				}
+			}
 		}
 	}
 	return u
@@ -259,6 +366,29 @@ type c08Op struct {
 	pe   bool
 	pr   uint64
 	ex   int64
+	// the ID the operation is addressed with: 0 = the ID of the first bundle of key i (the whole bundle:
+	// a scrubbed ID), n+1 = the ID of universe bundle n (of key i) - for a fragment the full fragment ID,
+	// as the Core's BundleDescriptors carry it
+	via int
+	// del only: through routing.BundleDescriptor.Sync of a descriptor without constraints
+	sync bool
+}
+
+func (u *c08U) idFor(op c08Op) bpv7.BundleID {
+	if op.via > 0 {
+		if u.bs[op.via-1].K != op.i {
+			panic("c08: via of another key")
+		}
+		return u.bs[op.via-1].B.ID()
+	}
+	return u.idOfKey(op.i)
+}
+
+func (op c08Op) viaS(l ...S) S {
+	if op.via > 0 {
+		l = append(l, I(op.via-1))
+	}
+	return LL(l)
 }
 
 func (op c08Op) sexp(now int64) S {
@@ -266,9 +396,9 @@ func (op c08Op) sexp(now int64) S {
 	case "push":
 		return L(Sym("push"), I(op.i))
 	case "upd":
-		return L(Sym("upd"), I(op.i), B(op.pe), U(op.pr), I64(op.ex))
+		return op.viaS(Sym("upd"), I(op.i), B(op.pe), U(op.pr), I64(op.ex))
 	case "del", "qid", "knows", "complete":
-		return L(Sym(op.kind), I(op.i))
+		return op.viaS(Sym(op.kind), I(op.i))
 	case "sweep":
 		return L(Sym("sweep"), I64(now))
 	}
@@ -293,7 +423,7 @@ func (u *c08U) doOp(st **storage.Store, dir string, op c08Op) (S, S) {
 		err := s.Push(u.bs[op.i].B)
 		return op.sexp(0), L(Sym("unit"), B(err == nil))
 	case "upd":
-		id := u.idOfKey(op.i)
+		id := u.idFor(op)
 		bi, err := s.QueryId(id)
 		if err != nil {
 			bi = storage.BundleItem{Id: id.Scrub().String(), BId: id.Scrub(), Properties: map[string]interface{}{}}
@@ -304,14 +434,21 @@ func (u *c08U) doOp(st **storage.Store, dir string, op c08Op) (S, S) {
 		err = s.Update(bi)
 		return op.sexp(0), L(Sym("unit"), B(err == nil))
 	case "del":
-		err := s.Delete(u.idOfKey(op.i))
+		id := u.idFor(op)
+		var err error
+		if op.sync && s.KnowsBundle(id) {
+			// the Core's way: a descriptor whose last constraint is gone synchronises itself away
+			err = routing.NewBundleDescriptor(id, s).Sync()
+		} else {
+			err = s.Delete(id)
+		}
 		return op.sexp(0), L(Sym("unit"), B(err == nil))
 	case "sweep":
 		now := time.Now().UnixNano() / 1000000
 		s.DeleteExpired()
 		return op.sexp(now), L(Sym("unit"), B(true))
 	case "qid":
-		bi, err := s.QueryId(u.idOfKey(op.i))
+		bi, err := s.QueryId(u.idFor(op))
 		if err != nil {
 			return op.sexp(0), L(Sym("rec"), Sym("none"))
 		}
@@ -328,9 +465,9 @@ func (u *c08U) doOp(st **storage.Store, dir string, op c08Op) (S, S) {
 		}
 		return op.sexp(0), L(Sym("recs"), LL(l))
 	case "knows":
-		return op.sexp(0), L(Sym("bool"), B(s.KnowsBundle(u.idOfKey(op.i))))
+		return op.sexp(0), L(Sym("bool"), B(s.KnowsBundle(u.idFor(op))))
 	case "complete":
-		bi, err := s.QueryId(u.idOfKey(op.i))
+		bi, err := s.QueryId(u.idFor(op))
 		if err != nil {
 			return op.sexp(0), L(Sym("optbool"), Sym("none"))
 		}
@@ -363,7 +500,24 @@ func c08Dir() string {
 	return workDir()
 }
 
+// randOp: a drawn operation; operations that name a record do so by a drawn one of the IDs denoting
+// it (half of them by the scrubbed ID as before)
 func (u *c08U) randOp(r *Rng) c08Op {
+	op := u.randOp0(r)
+	switch op.kind {
+	case "upd", "del", "qid", "knows", "complete":
+		if r.Bool() {
+			l := u.ofKey(op.i)
+			op.via = l[r.Intn(len(l))] + 1
+		}
+		if op.kind == "del" {
+			op.sync = r.Intn(3) == 0
+		}
+	}
+	return op
+}
+
+func (u *c08U) randOp0(r *Rng) c08Op {
 	nk := len(u.keys)
 	x := r.Intn(100)
 	switch {
@@ -424,7 +578,7 @@ func genC08store(o *Out, r *Rng, thorough bool) {
 	}
 	// --- seq ---
 	for s := 0; s < nseq; s++ {
-		u := c08Universe(r, 1+r.Intn(3), r.Intn(3) > 0, s, true)
+		u := c08UniverseH(r, 1+r.Intn(3), r.Intn(3) > 0, s, true, r.Bool())
 		u.thorough = thorough
 		nops := 5 + r.Intn(21)
 		var steps []S
@@ -444,6 +598,14 @@ func genC08store(o *Out, r *Rng, thorough bool) {
 		}
 		o.Case("seq", u.sexp(), I64(time.Now().UnixNano()/1000000), LL(steps))
 		u.cleanup(st)
+	}
+	// --- foreign fragmentations and lone fragments, every operation addressed by fragment IDs ---
+	nhand := 48
+	if thorough {
+		nhand = 960
+	}
+	for s := 0; s < nhand; s++ {
+		c08Hand(o, r, s, &st, dir, thorough)
 	}
 	// --- exhaustive small scope: every sequence of length `depth` over 7 operations on one bundle ID ---
 	{
@@ -495,6 +657,115 @@ func genC08store(o *Out, r *Rng, thorough bool) {
 	if os.Getenv("VERIF_C08_DEBUG") != "" {
 		fmt.Fprintf(os.Stderr, "c08: seq %v conc %v crash %v\n", t1.Sub(t0), t2.Sub(t1), time.Since(t2))
 	}
+}
+
+// ---- hand-built fragments ----
+
+// c08Hand: one record made of fragments that dtn7's own Fragment() would not produce - a lone fragment
+// covering the whole payload (also of an empty payload), lone partial ones, fragmentations at drawn cut
+// points (uneven, 1-byte pieces, overlapping) arriving in a drawn order, complete or with one piece
+// missing that arrives later - with IsComplete asked after every arrival; then the record is queried,
+// updated and deleted under the IDs of its fragments, the fragments arrive again, and a drawn tail of
+// operations follows.  A second record (whole bundle) stands by.
+func c08Hand(o *Out, r *Rng, s int, stp **storage.Store, dir string, thorough bool) {
+	u := c08UniverseH(r, 2, false, 3000+s, false, true)
+	u.thorough = thorough
+	var steps []S
+	do := func(op c08Op) {
+		so, res := u.doOp(stp, dir, op)
+		steps = append(steps, L(so, res, u.dump(*stp)))
+	}
+	anyVia := func() int { l := u.ofKey(0); return l[r.Intn(len(l))] + 1 }
+	reopen := func(p int) { // opening badger costs ~0.3 s
+		if !thorough {
+			p *= 3
+		}
+		if r.Intn(p) == 0 {
+			do(c08Op{kind: "reopen"})
+		}
+	}
+	var stored []int
+	push := func(i int) {
+		do(c08Op{kind: "push", i: i})
+		stored = append(stored, i)
+		op := c08Op{kind: "complete", i: 0}
+		if r.Bool() {
+			op.via = stored[r.Intn(len(stored))] + 1
+		}
+		do(op)
+	}
+	if r.Bool() {
+		do(c08Op{kind: "push", i: c08AnyOfKey(u, 1)})
+	}
+	mode := s % 6
+	if len(u.partial) == 0 { // payload of 0 or 1 bytes: nothing but the covering fragment
+		mode = 0
+	}
+	switch mode {
+	case 0: // lone covering fragment
+		push(u.cover[0])
+	case 1: // lone partial fragment(s); the covering one afterwards (ignored as known when the head is stored)
+		push(u.partial[r.Intn(len(u.partial))])
+		if r.Bool() {
+			push(u.partial[r.Intn(len(u.partial))])
+		}
+		if r.Bool() {
+			push(u.cover[0])
+		}
+	case 2, 3: // a foreign fragmentation in a drawn order; 3: one piece comes last, after the questions
+		set := append([]int{}, u.cuts[mode-2]...)
+		for i := len(set) - 1; i > 0; i-- {
+			j := r.Intn(i + 1)
+			set[i], set[j] = set[j], set[i]
+		}
+		for _, i := range set[1:] {
+			push(i)
+		}
+		if mode == 3 {
+			do(c08Op{kind: "qid", i: 0, via: anyVia()})
+			reopen(2)
+		}
+		push(set[0])
+	case 4: // pieces of both fragmentations mixed, then the covering fragment
+		for n := 1 + r.Intn(4); n > 0; n-- {
+			set := u.cuts[r.Intn(2)]
+			push(set[r.Intn(len(set))])
+		}
+		push(u.cover[0])
+	case 5: // a fragment of dtn7's own fragmentation next to foreign ones
+		for _, i := range u.ofKey(0) {
+			if u.bs[i].Frag && r.Intn(3) == 0 && len(stored) < 4 {
+				push(i)
+			}
+		}
+		push(u.partial[r.Intn(len(u.partial))])
+	}
+	// the record under the IDs of its fragments
+	fragVia := func() int { return stored[r.Intn(len(stored))] + 1 }
+	do(c08Op{kind: "knows", i: 0, via: fragVia()})
+	if r.Bool() {
+		do(c08Op{kind: "upd", i: 0, pe: true, pr: uint64(1 + r.Intn(50)), ex: int64(4800000000000 + r.Intn(1000)), via: fragVia()})
+		do(c08Op{kind: "qpend"})
+	}
+	reopen(4)
+	do(c08Op{kind: "del", i: 0, via: fragVia(), sync: r.Bool()})
+	do(c08Op{kind: "knows", i: 0, via: anyVia()})
+	do(c08Op{kind: "qpend"})
+	reopen(4)
+	// the fragments arrive again
+	again := append([]int{}, stored...)
+	stored = nil
+	for _, i := range again {
+		if r.Intn(4) > 0 {
+			push(i)
+		}
+	}
+	for n := r.Intn(8); n > 0; n-- {
+		do(u.randOp(r))
+	}
+	do(c08Op{kind: "complete", i: 0, via: anyVia()})
+	o.Case("seq", u.sexp(), I64(time.Now().UnixNano()/1000000), LL(steps))
+	u.cleanup(*stp)
 }
 
 // ---- crash scenarios ----
@@ -554,9 +825,12 @@ func c08Crash(o *Out, r *Rng, rounds int) {
 			if n > 2 && n < len(f0) && round%2 == 0 {
 				continue
 			}
-			scs = append(scs, c08Scenario{pre: preFp, op: c08Op{kind: "del", i: 0}, point: "delete.after-part", nth: n, repush: f0[r.Intn(len(f0))]})
+			// addressed by the ID of the n-th fragment (every other one: by the scrubbed ID)
+			scs = append(scs, c08Scenario{pre: preFp, op: c08Op{kind: "del", i: 0, via: (n % 2) * (f0[n-1] + 1)}, point: "delete.after-part", nth: n, repush: f0[r.Intn(len(f0))]})
 		}
 		scs = append(scs, c08Scenario{pre: preFp, op: c08Op{kind: "del", i: 0}, point: "delete.before-index", nth: 1, repush: f0[0]})
+		// point not reached: the delete, addressed by the ID of the last fragment, runs to its end in the child
+		scs = append(scs, c08Scenario{pre: preFp, op: c08Op{kind: "del", i: 0, via: f0[len(f0)-1] + 1}, point: "push.before-insert", nth: 1, repush: f0[0]})
 		// expiry sweep with one expired multi-part record, killed inside
 		preS := append(append([]c08Op{}, preF...), c08Op{kind: "upd", i: 0, pe: false, pr: 5, ex: past})
 		scs = append(scs, c08Scenario{pre: preS, op: c08Op{kind: "sweep"}, point: "delete.after-part", nth: 1 + r.Intn(len(f0)), repush: f0[0]})
@@ -572,6 +846,9 @@ func (u *c08U) opSpec(op c08Op) string {
 	case "push":
 		return "push:" + hex.EncodeToString(u.bs[op.i].Raw)
 	case "del":
+		if op.via > 0 {
+			return "del:" + hex.EncodeToString(u.bs[op.via-1].Raw)
+		}
 		return "del:" + hex.EncodeToString(u.bs[c08AnyOfKey(u, op.i)].Raw)
 	case "upd":
 		return fmt.Sprintf("upd:%s:%v:%d:%d", hex.EncodeToString(u.bs[c08AnyOfKey(u, op.i)].Raw), op.pe, op.pr, op.ex)
